@@ -1,4 +1,5 @@
 import MqttVerif.Conn.Lemmas.Credit
+import MqttVerif.Conn.Lemmas.Pigeon
 /-!
 # C12 — Receive Maximum flow control is exact in both directions
 
@@ -8,11 +9,11 @@ are incomplete; the reported vacancy equals M minus that number, never wraps or 
 to M when all exchanges complete; conversely an excess inbound QoS>0 PUBLISH is answered with
 DISCONNECT 'Receive Maximum exceeded' and not delivered.
 
-Model fields: `sendMax` (M), `sendCount` (u16), wait sets `puback pubrec pubcomp`, `store`;
+Model fields: `sendMax` (M), `sendCount` (u32 since fix ab9a1ec), wait sets `puback pubrec pubcomp`, `store`;
 `vacancy s = sendMax.map (· - sendCount)`.  Proved here, for **every** M, state, packet, parser
 and operation:
-* `C12_no_wrap` — neither `+= 1` site panics (given M ≤ 65535 and ≤ 65535 stored packets);
-  `C12_dec_never_underflows`; `C12_no_wrap_needs_store_bound` — the store bound is necessary;
+* `C12_no_wrap` — neither `+= 1` site panics (given M ≤ 65535 and ≤ 4294967295 stored packets — the latter holds whenever store ids are distinct ids of a ≤ 4-byte id type, `C12_no_wrap_ids`);
+  `C12_dec_never_underflows`;
 * `C12_send_accepted_iff_credit` — the gate is exactly `sendCount ≥ M`, with the exact frame of a
   refusal and `+1` on acceptance;
 * `C12_recv_excess_disconnects`, `C12_publishRecv_*` — receiver side;
@@ -29,7 +30,7 @@ open MqttVerif
 /-! ## 1. the counter never wraps -/
 
 /-- no call raises a panic at one of the two `publish_send_count += 1` sites, provided the
-    peer's Receive Maximum is a `u16` value and at most 65535 packets are stored (`WrapPre`);
+    peer's Receive Maximum is a `u16` value and at most 4294967295 packets are stored (`WrapPre`);
     for every M ≥ 0, every operation, every peer input.  (`cpOf panic` = "the sticky panic is one
     of the two counter sites".) -/
 theorem C12_no_wrap (cfg : Cfg) (s : St) (op : Op) (h : WrapPre s) (hp : s.panic = none) :
@@ -38,6 +39,27 @@ theorem C12_no_wrap (cfg : Cfg) (s : St) (op : Op) (h : WrapPre s) (hp : s.panic
   simp only [hp, cpOf] at this
   simp only [Option.some.injEq, reduceCtorEq, or_self, decide_false, decide_eq_false_iff_not, not_or] at this
   exact this
+
+/-- `WrapPre` from what the connection's invariants give (C05 `Inv`: `StoreInv` — stored ids pairwise
+    distinct, also `C08_store_ids_distinct` — and `StoreRange` — stored ids inside `[1, idMax]`):
+    with identifiers of at most 4 bytes the store cannot hold more than `u32::MAX` packets
+    (pigeonhole), so the store bound of `C12_no_wrap` needs no assumption on the session size. -/
+theorem wrapPre_of_ids (cfg : Cfg) (s : St) (h4 : cfg.pw ≤ 4)
+    (hM : ∀ M, s.sendMax = some M → M ≤ 65535)
+    (hn : (s.store.map (·.1)).Nodup) (hr : ∀ x ∈ s.store, 1 ≤ x.1 ∧ x.1 ≤ cfg.idMax) : WrapPre s :=
+  ⟨hM, Nat.le_trans (Pigeon.keys_length_le hn hr) (Pigeon.idMax_le_u32 h4)⟩
+
+/-- **`C12_no_wrap` without a bound on the session size** (`u32` counter, fix ab9a1ec): neither
+    `+= 1` site panics when the peer's Receive Maximum is a `u16`, identifiers are at most 4 bytes
+    wide and the stored identifiers are pairwise distinct members of `[1, idMax]` — both
+    invariants of every reachable state.  (The `u16` counter needed "at most 65535 stored
+    packets", which 4-byte identifiers do not guarantee: finding fixed by ab9a1ec.) -/
+theorem C12_no_wrap_ids (cfg : Cfg) (s : St) (op : Op) (h4 : cfg.pw ≤ 4)
+    (hM : ∀ M, s.sendMax = some M → M ≤ 65535)
+    (hn : (s.store.map (·.1)).Nodup) (hr : ∀ x ∈ s.store, 1 ≤ x.1 ∧ x.1 ≤ cfg.idMax)
+    (hp : s.panic = none) :
+    (step cfg s op).s.panic ≠ some siteStored ∧ (step cfg s op).s.panic ≠ some sitePublish :=
+  C12_no_wrap cfg s op (wrapPre_of_ids cfg s h4 hM hn hr) hp
 
 /-- the three decrements (PUBACK / failing PUBREC / PUBCOMP, and `erase`) go through
     `decSendCount`, which is guarded: never below zero, no panic site -/
@@ -305,7 +327,7 @@ theorem C12_credit_invariant_partial (c : C) (limbo : List Nat) (heq : CreditEq 
 
 /-- on resume (`send_stored`) the counter is recounted: it equals the number of stored packets
     that are resent on the new connection (fix of finding #10 / #10b) -/
-theorem C12_resume_recount (c : C) (hs : c.s.sendMax.isSome) (hlen : c.s.store.length ≤ 65535) :
+theorem C12_resume_recount (c : C) (hs : c.s.sendMax.isSome) (hlen : c.s.store.length ≤ 4294967295) :
     (sendStored c).s.sendCount = (sendStored c).s.store.length :=
   sendStored_recount c hs hlen
 
@@ -345,6 +367,9 @@ example : WrapPre sB ∧ sB.panic = none ∧ sB.store.length = 1 ∧ sB.sendMax 
   refine ⟨⟨?_, by decide⟩, by decide, by decide, by decide⟩
   intro M h; have : sB.sendMax = some 1 := by decide
   rw [this] at h; cases h; decide
+/-- `C12_no_wrap_ids`: the id hypotheses in the reachable state `sB` (one stored packet, id 1) -/
+example : cfg.pw ≤ 4 ∧ (sB.store.map (·.1)).Nodup ∧ (∀ x ∈ sB.store, 1 ≤ x.1 ∧ x.1 ≤ cfg.idMax) ∧
+    sB.panic = none := by decide
 /-- `C12_send_accepted_iff_credit`: accepted in `sA` (count 0 < 1), refused in `sB` (count 1 ≥ 1) -/
 example : cA.ev = [] ∧ sizeOk cA (pub 1 1) = true ∧ (pub 1 1).qos > 0 ∧ pubNotAllowed sA = false ∧
     isUsed sA 1 = true ∧ sA.sendMax = some 1 ∧ sA.sendCount = 0 ∧ 1 ∉ sA.puback ∧ 1 ∉ sA.pubrec ∧
@@ -364,7 +389,7 @@ example : CreditEq sA [] ∧ sA.sendMax = some 1 ∧ sA.puback = [] ∧ sA.pubre
   refine ⟨?_, by decide, by decide, by decide, by decide⟩
   intro M h; have : sA.sendMax = some 1 := by decide
   rw [this] at h; cases h; decide
-example : cB.s.sendMax.isSome ∧ cB.s.store.length ≤ 65535 ∧ (sendStored cB).s.sendCount = 1 := by decide
+example : cB.s.sendMax.isSome ∧ cB.s.store.length ≤ 4294967295 ∧ (sendStored cB).s.sendCount = 1 := by decide
 
 end C12Ex
 
